@@ -634,7 +634,17 @@ func runHandlerOn(m *mon.M, c *Case, b *built, h http.Handler) {
 		return &Case{Kind: "handler", Absent: c.Absent, Lines: c.Lines, API: d, Op: 0, WantOrder: b.obs.produces}
 	}
 	if pv, st := mon.Catch(func() { h.ServeHTTP(rec, req) }); pv != nil {
-		m.Violate("handler/panic", fmt.Sprintf("API handler panicked on Accept=%q: %v\n%s", lines, pv, st), minimal())
+		// a panic is never attributed away; when ParseAccept already fails its oracle on this header the
+		// signature names the header's feature class, so that the two root causes stay apart
+		sig := "handler/panic"
+		if p := accept.ParseStrict(lines, true); p.Judged && p.Present {
+			var specs []header.AcceptSpec
+			mon.Catch(func() { specs = header.ParseAccept(req.Header, "Accept") })
+			if md, _ := checkParse(specs, p.Ranges); md != "" {
+				sig = "handler/panic-after-" + md + "/" + accept.Features(lines, p.Ranges)[0]
+			}
+		}
+		m.Violate(sig, fmt.Sprintf("API handler panicked on Accept=%q (produces=%q, default=%q): %v\n%s", lines, b.obs.produces, b.desc.DefaultProduces, pv, st), minimal())
 		return
 	}
 	obs := *b.obs
